@@ -497,7 +497,7 @@ func c08TimerHazard(c *Ctx) {
 						return false
 					}
 					tv := info.Types[as.Rhs[0]]
-					return canonPath(info, as.Lhs[0]) == flag && tv.Value != nil && tv.Value.String() == "true"
+					return lhsPath(info, as.Lhs[0]) == flag && tv.Value != nil && tv.Value.String() == "true"
 				}
 				closes := rg.Find(func(m ast.Node) bool {
 					c2, ok := m.(*ast.CallExpr)
